@@ -231,6 +231,9 @@ func Verif_C21_PBKDF1() {
 	c21PBKDF(0, 0, verifrt.Choose(-1, 2), verifrt.Choose(1, 3), n)
 }
 
+// Verif_C21_PBKDF2S: two blocks (n = 24), r = 1, nil password (I = S only: one 512-bit update).
+func Verif_C21_PBKDF2S() { c21PBKDF(0, 0, -1, 1, 24) }
+
 // Verif_C21_PBKDF2: two blocks (n = 24, the 3DES key), r = 1, password of 1 character, hash and
 // salt without leading zero bytes.
 func Verif_C21_PBKDF2() { c21PBKDF(0, 0, 1, 1, 24) }
